@@ -36,6 +36,14 @@ pub fn check(cx: &Cx, rep: &mut Report) {
                             rep.fail(P, "R1", format!("call_err_before_stop={e}"), format!("{:?} c{}#{} returned Err({e}) at #{r} although no stop request had been issued (first cause at {:?}) and the actor did not fail", m.op, m.c, m.i, cause), vec![m.b, r]);
                         }
                         (OpK::Call | OpK::Ping, Some(Res::Ok | Res::Reply { .. })) => rep.premise("C04.R1.call_before_stop_ok"),
+                        // a call through an address is in the mailbox after its first poll: giving up on the answer
+                        // later does not take the message back - it is still handled
+                        (OpK::Call, Some(Res::Cancelled)) if m.path == Path::Forcing && m.pending.unwrap_or(0) >= 1 && m.msg != 0 => {
+                            rep.premise("C04.R1.abandoned_call_still_handled");
+                            if !ix.inv_of.contains_key(&m.msg) {
+                                rep.fail(P, "R1", "abandoned_call_lost", format!("call c{}#{} (msg {}) was in the mailbox (polled {} time(s)) when its caller gave up at #{r}, before any stop request (first cause at {:?}), but was never handled", m.c, m.i, m.msg, m.pending.unwrap_or(0), cause), vec![m.b, r]);
+                            }
+                        }
                         _ => {}
                     }
                 }
